@@ -211,6 +211,14 @@ func Check(sp SchemaSpec) (*jschema.Schema, Res) {
 }
 
 // Validate validates a fresh document.
+// Recheck calls Check once more on an object that has been checked before.
+func Recheck(s *jschema.Schema) Res {
+	if s == nil {
+		return Res{}
+	}
+	return Guard(s.Check)
+}
+
 func Validate(s *jschema.Schema, doc string) Res {
 	return Guard(func() error { return s.Validate(json.New("doc", doc)) })
 }
